@@ -390,6 +390,11 @@ def rule_scan(ck: Check, repo: Repo) -> None:
                 return "name_known"
             if re.fullmatch(r".* in license_files", t):
                 return "duplicate"
+            # the same question asked through .get(): the values are paths, never None
+            if re.fullmatch(r"license_files\.get\(.*\) is not None", t):
+                return "duplicate"
+            if re.fullmatch(r"license_files\.get\(.*\) is None", t):
+                return ("not", "duplicate")
             if t.startswith("_LICENSEREF_PATTERN.match("):
                 return "lref"
             if "'Unknown' not in " in t:
